@@ -58,8 +58,8 @@ type Pipe struct {
 	// OSFileClose makes closing an end that is already closed an error (os.ErrClosed), as *os.File does - and
 	// os.Stdin / os.Stdout are what a plugin's server really runs on; io.Pipe never complains.
 	OSFileClose bool
-	Name string
-	mode Mode
+	Name        string
+	mode        Mode
 
 	mu     sync.Mutex
 	cond   *sync.Cond
